@@ -457,7 +457,7 @@ Proof.
   destruct Hc as [D Hc].
   assert (Hseq : seq_ok w_deep w_deep_edits).
   { cbn [seq_ok w_deep_edits].
-    repeat (split; [eexists; split; [reflexivity|exact I]|split; [vm_compute; reflexivity|]]). exact I. }
+    repeat (split; [eexists; split; [reflexivity|vm_compute; first [exact I|left; discriminate|right; reflexivity]]|split; [vm_compute; reflexivity|]]). exact I. }
   destruct (c13_full w_deep_edits w_deep (b "foo.v1") D) as (D' & Hc' & Hext); try assumption.
   - vm_compute. reflexivity.
   - intros x [<-|[]]. vm_compute. discriminate.
@@ -497,4 +497,33 @@ Proof.
   - eexists. split; [left; reflexivity|vm_compute; reflexivity].
   - exists D, D'. split; [exact Hc|]. split; [exact Hc'|]. split; [exact Hext|].
     vm_compute in Hc'. inversion Hc'. split; vm_compute; reflexivity.
+Qed.
+
+(* the recorded finding at depth: an enum WITHOUT options nested in an object; the appended
+   option OLD_UNSPECIFIED (EAppendIn ... [SNested 0] (AOption ...)) becomes its first option and
+   the zero value.  apply_edits applies the edit as it is; both versions are valid and compile;
+   the old descriptors do not embed; and the edit is not one C13_full speaks about (edit_ok fails) *)
+Definition w_empty_nested_enum : bundle :=
+  [BJ (mkJfile [b "foo"; b "v1"] (b "a") []
+     [EObject (b "Foo") (mkprops [Property (b "x") false false (FScalar SString)])
+        (mknesteds [NEnum (mkEnum (b "Status") [] [])])])].
+Definition w_empty_nested_enum_edit : edit := EAppendIn 0 0 AtDecl [SNested 0] (AOption (b "OLD_UNSPECIFIED")).
+
+Definition nested_enum_vals (D : list dfile) : list (list (str * N)) :=
+  flat_map (fun f => flat_map (fun m => map en_vals (dm_enums m)) (fl_msgs f)) D.
+
+Lemma append_to_empty_nested_enum_renames_zero :
+  valid w_empty_nested_enum = true /\ valid (apply_edits w_empty_nested_enum [w_empty_nested_enum_edit]) = true /\
+  (exists D D', compile w_empty_nested_enum (b "foo.v1") = Ok D /\
+                compile (apply_edits w_empty_nested_enum [w_empty_nested_enum_edit]) (b "foo.v1") = Ok D' /\
+                nested_enum_vals D = [[(b "STATUS_UNSPECIFIED", 0)]] /\
+                nested_enum_vals D' = [[(b "STATUS_OLD_UNSPECIFIED", 0)]] /\
+                files_ext_b D D' = false) /\
+  (forall j, nth_error w_empty_nested_enum 0 = Some (BJ j) -> ~ edit_ok w_empty_nested_enum_edit j).
+Proof.
+  split; [vm_compute; reflexivity|]. split; [vm_compute; reflexivity|]. split.
+  - eexists. eexists. repeat split; vm_compute; reflexivity.
+  - intros j Hj. vm_compute in Hj. inversion Hj. subst j. clear Hj.
+    unfold edit_ok, w_empty_nested_enum_edit. cbn. intros [H|H]; [apply H; reflexivity|].
+    vm_compute in H. discriminate H.
 Qed.
